@@ -255,6 +255,29 @@ fn run_inner(op: &str, a: &[Arg]) -> String {
         // expression connectives with every combination of uniquely owned (rebuilt node by node) and
         // shared (a clone of a kept object) operand handles: (unique, shared), (shared, unique), (unique, unique)
         "probe" => crate::gen2::run_probe(xs(&a[0]), xs(&a[1]).parse().expect("HARNESS: n")),
+        // both operands are built around ONE handle of `x` (cloned, so the two sides share the node):
+        // left = x' (l) y, right = x'' (r) z with x', x'' = x or !x as the mode says
+        "and.shared" | "or.shared" | "xor.shared" | "imply.shared" | "iff.shared" => match (f(&a[0]), f(&a[1]), f(&a[2])) {
+            (Val::E(x), Val::E(y), Val::E(z)) => {
+                use biodivine_boolean_functions::traits::{Equality, Implication};
+                let mode: Vec<char> = xs(&a[3]).chars().collect();
+                let x = rebuild_expr(x);
+                let xl = if mode[2] == 'L' || mode[2] == 'B' { !x.clone() } else { x.clone() };
+                let xr = if mode[2] == 'R' || mode[2] == 'B' { !x.clone() } else { x.clone() };
+                let left = if mode[0] == 'o' { xl | rebuild_expr(y) } else { xl & rebuild_expr(y) };
+                let right = if mode[1] == 'o' { xr | rebuild_expr(z) } else { xr & rebuild_expr(z) };
+                let r = match op {
+                    "and.shared" => left & right,
+                    "or.shared" => left | right,
+                    "xor.shared" => left ^ right,
+                    "imply.shared" => left.imply(right),
+                    _ => left.iff(right),
+                };
+                drop(x);
+                enc_expr(&r)
+            }
+            _ => panic!("HARNESS: kind"),
+        },
         "and.own" | "or.own" | "xor.own" | "imply.own" | "iff.own" => match (f(&a[0]), f(&a[1])) {
             (Val::E(x), Val::E(y)) => {
                 let [r1, r2, r3] = own_variants(op, x, y);
